@@ -2279,7 +2279,7 @@ func init() {
 						}
 						_, isRet := x.(*ssa.Return)
 						return isRet
-					}, func(x ssa.Instruction) bool { _, ok := x.(*ssa.MapUpdate); return ok }, []string{"F:(call(*Get)#1* == nil)"})
+					}, func(x ssa.Instruction) bool { _, ok := x.(*ssa.MapUpdate); return ok }, []string{"F:(call(*Get)#1* == nil)", "T:call(error.IsErrNotFound)#0*"})
 					if okk {
 						a.ok(fname(fn)+" returns every entry found in the buffer", in, "")
 					} else {
